@@ -25,12 +25,17 @@
    previous-hash field, the zero hash, is no other block's hash).
    T9-T10 (C06_import_resumes, C06_removal_resumes; Ledger/Resume.v, ResumeProofs.v): the STEPS of
    the background tasks resume (T5 is about the queue only).
-   LIMIT of T6-T8, and a defect of the code: in Ledger/Crash.v "no wallet is ready"
+   T2r, T3r, T6r-T8r (Ledger/Crash3.v, CrashProofs3.v): the same for Start as repaired a second time
+   (the fast-forward only on top of a stored tip that is still on the node's chain): T2 and T3
+   without the [on_chain] half of [safe_point].
+   LIMIT of T6-T8, and a defect of the code (repaired): in Ledger/Crash.v "no wallet is ready"
    ([no_ready_wallet]) is "no address has been issued" — the process model has no wallet that is
    being imported.  In the code the fast-forward is also taken when the only wallets are being
    imported; their credits up to the rescan cursor are in the store, and a fast-forward over a
    stale fork neither rolls them back nor pulls the cursor back: C06_ff_stale_import_refuted
-   (Ledger/ResumeFF.v; reproduced on the real code, see there). *)
+   (Ledger/ResumeFF.v; reproduced on the real code by harness/cmd/c06's import-only family).
+   T11-T12 (Ledger/ResumeFFProofs.v): Start with its fast-forward AS REPAIRED while a restore is in
+   progress, from any rescan cursor, on any chain the node may have at the restart. *)
 From Coq Require Import List ZArith NArith Bool Lia.
 Import ListNotations.
 Open Scope Z_scope.
@@ -334,6 +339,99 @@ Proof.
   cbv zeta. split.
   - intros [_ [H|H]]; [apply H; vm_compute; reflexivity|vm_compute in H; discriminate].
   - vm_compute. repeat split; reflexivity.
+Qed.
+
+(* ---------------------------------------------------------------- Start as repaired a second time *)
+
+(* Ledger/Crash3.v: [start_chk] = Start with both repairs: the tip check of the first one, and the
+   fast-forward taken only on top of a stored tip that is still on the node's chain (otherwise the
+   block of height syncHeight+1 goes through processConnectedBlock first; KNOWN_FINDINGS fixed: C06).
+   [restart_chk], [crashes_chk], [crashes_at_chk], [crash_run_chk] as in Crash.v / Crash2.v.  Proofs:
+   Ledger/CrashProofs3.v.  With this repair the [on_chain] half of [safe_point] is no longer needed:
+   T2 and T3 hold at EVERY crash point but the bare-genesis one ([not_bare_genesis], which T6r-T8r
+   cover under [genesis_prev_free]). *)
+Require Import MW.Ledger.Crash3 MW.Ledger.CrashProofs3.
+
+(* T2r: a run with one crash IS a run of the process that never stops, on the history with the
+   restart's announcements inserted at the crash point — fast-forward or not, the node reorganised
+   below the stored tip or not *)
+Theorem C06_crash_is_history_repaired : forall p ff g h bt k,
+  0 <= ff ->
+  wf_history_gen p true g (h ++ [EvProcess bt]) ->
+  not_bare_genesis g (fst (fst (cut p k (init_proc g) h))) ->
+  crash_run_chk p ff g k h = Some (prun p (init_proc g) (crash_history p true g k h)).
+Proof. exact crash_is_history_chk. Qed.
+Print Assumptions C06_crash_is_history_repaired.
+
+(* T3r: the restarted wallet is on the node's tip as soon as Start has returned *)
+Theorem C06_restart_on_tip_repaired : forall p ff g h bt k pr1 pre post,
+  0 <= ff ->
+  wf_history_gen p true g (h ++ [EvProcess bt]) ->
+  cut p k (init_proc g) h = (pr1, pre, post) -> not_bare_genesis g pr1 ->
+  exists pr2, restart_chk p ff g pr1 = Some pr2 /\
+    snd (tip (s_wallet (pr_sim pr2))) = b_id (last (s_node (pr_sim pr1)) g) /\
+    s_node (pr_sim pr2) = s_node (pr_sim pr1).
+Proof. exact restart_on_tip_chk. Qed.
+Print Assumptions C06_restart_on_tip_repaired.
+
+(* T6r = C06 for the code as repaired: every commit boundary of every history as the crash point,
+   repeated crashes included, NO premise on the crash points *)
+Theorem C06_crash_equiv_repaired : forall p ff g h bt ks,
+  0 <= ff ->
+  wf_history_gen p true g (h ++ [EvProcess bt]) ->
+  last (s_node (run p true g h)) g = bt ->
+  genesis_prev_free g (g :: blocks_of_history (h ++ [EvProcess bt])) ->
+  exists pr', crashes_chk p ff g ks (init_proc g) h = Some pr' /\
+    forall w, observe (finish p g pr') w = observe (finish p g (prun p (init_proc g) h)) w /\
+              observe (finish p g pr') w =
+              spec_report p (own_of (s_own (run p true g h))) (s_node (run p true g h)) w.
+Proof. exact crash_equiv_chk. Qed.
+Print Assumptions C06_crash_equiv_repaired.
+
+(* T7r: crashes at ARBITRARY instants (the node moves during the outage) *)
+Theorem C06_crash_equiv_at_repaired : forall p ff g h bt js,
+  0 <= ff ->
+  wf_history_gen p true g (h ++ [EvProcess bt]) ->
+  last (s_node (run p true g h)) g = bt ->
+  genesis_prev_free g (g :: blocks_of_history (h ++ [EvProcess bt])) ->
+  exists pr', crashes_at_chk p ff g js (init_proc g) h = Some pr' /\
+    forall w, observe (finish p g pr') w = observe (finish p g (prun p (init_proc g) h)) w /\
+              observe (finish p g pr') w =
+              spec_report p (own_of (s_own (run p true g h))) (s_node (run p true g h)) w.
+Proof. exact crash_equiv_at_chk. Qed.
+Print Assumptions C06_crash_equiv_at_repaired.
+
+(* T8r: restart at ANY point of a history, after any earlier crashes *)
+Theorem C06_restart_any_chain_repaired : forall p ff g h bt ks pre post pr1,
+  0 <= ff ->
+  wf_history_gen p true g (h ++ [EvProcess bt]) ->
+  genesis_prev_free g (g :: blocks_of_history (h ++ [EvProcess bt])) ->
+  h = pre ++ post ->
+  crashes_chk p ff g ks (init_proc g) pre = Some pr1 ->
+  s_node (pr_sim pr1) = s_node (run p true g pre) /\ s_own (pr_sim pr1) = s_own (run p true g pre) /\
+  exists pr2, restart_chk p ff g pr1 = Some pr2 /\
+    s_node (pr_sim pr2) = s_node (pr_sim pr1) /\ s_own (pr_sim pr2) = s_own (pr_sim pr1) /\
+    snd (tip (s_wallet (pr_sim pr2))) = b_id (last (s_node (pr_sim pr1)) g) /\
+    forall w, observe pr2 w = spec_report p (own_of (s_own (pr_sim pr1))) (s_node (pr_sim pr1)) w.
+Proof. exact restart_any_chain_chk. Qed.
+Print Assumptions C06_restart_any_chain_repaired.
+
+(* the crash point of [C06_stale_fork_hypotheses] (not a [safe_point]: Start as found fast-forwards over
+   the abandoned block 1) satisfies the premise of T2r/T3r; Start as repaired finds the stored tip
+   replaced, sends block 2c through the reorganisation path, and the sync records are the node's chain *)
+Example C06_stale_fork_restart_repaired :
+  let pr1 := prun p0 (init_proc g0) h_sf1 in
+  not_bare_genesis g0 pr1 /\ ff_wanted 1 pr1 = true /\ tip_on_node pr1 = false /\
+  match restart_chk p0 1 g0 pr1 with
+  | Some pr2 => synced (s_wallet (pr_sim pr2)) = [(4, 14%N); (3, 13%N); (2, 12%N); (1, 11%N); (0, 0%N)]
+  | None => False
+  end /\
+  match restart p0 true 1 g0 pr1 with
+  | Some pr2 => synced (s_wallet (pr_sim pr2)) = [(4, 14%N); (3, 13%N); (2, 12%N); (1, 1%N); (0, 0%N)]
+  | None => False
+  end.
+Proof.
+  cbv zeta. split; [left; vm_compute; discriminate|]. vm_compute. repeat split; reflexivity.
 Qed.
 
 (* ---------------------------------------------------------------- T9-T10: the steps of the background tasks resume *)
